@@ -1,19 +1,19 @@
 SPECIFICATION Spec
 CONSTANTS
-  Pair = "LLTEM"
-  MaxDepth = 4
-  MaxCopies = 2
-  MaxEdits = 1
+  Pair = "AFEM"
+  MaxDepth = 3
+  MaxCopies = 1
+  MaxEdits = 2
   MaxReopens = 1
-  EditOps = {"channels", "timing_mark"}
-  CopyModes = {"plain-same", "mask-same", "extent-same", "plain-other", "extent-other"}
-  MaskNames = {"lo", "mid"}
+  EditOps = {"channels"}
+  CopyModes = {"plain-same", "extent-same"}
+  MaskNames = {"lo"}
   Focus = TRUE
   BadValues = FALSE
-  ValuesPerOp = 1
-  EditWhen = "copied"
-  Extras = 0
-  Deviations = {}
+  ValuesPerOp = 2
+  EditWhen = "always"
+  Extras = 2
+  Deviations = {"RelinkLeavesSharedDictionary"}
 VIEW vw
 INVARIANT Mutual
 INVARIANT BothIds
@@ -29,6 +29,4 @@ PROPERTY CopyCopiesPartner
 PROPERTY EditIsLocal
 PROPERTY RefusedIsNoop
 PROPERTY ValidEditsAccepted
-INVARIANT ExportState
-ACTION_CONSTRAINT ExportTrans
 CHECK_DEADLOCK FALSE
